@@ -77,23 +77,46 @@ class TypeTable:
         digest = tree_digest(repo)
         CACHE.mkdir(exist_ok=True)
         path = CACHE / f"types_{digest}.json"
-        if not path.exists():
-            tmp = path.with_suffix(f".{os.getpid()}.tmp")
-            r = subprocess.run(["/venv/bin/python", "-c", _HELPER, str(repo.root), str(tmp)], capture_output=True, text=True)
-            if r.returncode != 0 or not tmp.exists():
-                raise AnalysisError(f"mypy type extraction failed: {r.stderr[-400:]}")
-            os.replace(tmp, path)
-            # keep the cache small
-            old = sorted(CACHE.glob("types_*.json"), key=lambda p: p.stat().st_mtime)
-            for p in old[:-6]:
+        data = None
+        for _attempt in range(3):
+            if not path.exists():
+                tmp = path.with_suffix(f".{os.getpid()}.tmp")
+                r = subprocess.run(["/venv/bin/python", "-c", _HELPER, str(repo.root), str(tmp)], capture_output=True, text=True)
+                if r.returncode != 0 or not tmp.exists():
+                    raise AnalysisError(f"mypy type extraction failed: {r.stderr[-400:]}")
+                os.replace(tmp, path)
+                self._evict(path)
+            try:
+                data = json.loads(path.read_text())
+                break
+            except (FileNotFoundError, json.JSONDecodeError):
+                # another process evicted (or is replacing) the table between the test and the read: build it again
+                continue
+        if data is None:
+            raise AnalysisError("type table cache could not be read (concurrent eviction)")
+        self.errors = data["errors"]
+        self.tabs: dict[str, dict[str, str]] = data["modules"]
+        self.n_types = sum(len(t) for t in self.tabs.values())
+
+    @staticmethod
+    def _evict(keep: Path) -> None:
+        """keep the cache small without pulling a table from under a concurrent run: only tables that have not been
+        touched for a while go, and a file that vanishes meanwhile is somebody else's eviction"""
+        import time
+        now = time.time()
+        entries = []
+        for p in CACHE.glob("types_*.json"):
+            try:
+                entries.append((p.stat().st_mtime, p))
+            except OSError:
+                continue
+        entries.sort()
+        for mtime, p in entries[:-24]:
+            if p != keep and now - mtime > 1800:
                 try:
                     p.unlink()
                 except OSError:
                     pass
-        data = json.loads(path.read_text())
-        self.errors = data["errors"]
-        self.tabs: dict[str, dict[str, str]] = data["modules"]
-        self.n_types = sum(len(t) for t in self.tabs.values())
 
     def type_of(self, modname: str, node: ast.AST) -> str | None:
         tab = self.tabs.get(modname)
